@@ -123,7 +123,7 @@ NOT_YET = {
 # fifth round: what was added to the workloads / stages (appended to the texts above)
 MORE_TEXT = {
     "C02": "In a third of the runs the listening socket is closed as soon as the last expected connection was accepted while the accepted sockets stay in use.",
-    "C05": "One case in 16 is a flood of 1,050..1,700 frames offered at one instant, so that a throughput-limited wire has a four-digit backlog.",
+    "C05": "One case in 32 is a flood of 1,050..1,700 frames offered at one instant, so that a throughput-limited wire has a four-digit backlog.",
     "C13": "One paused run in ten is given a timeout that means 'no limit' (Duration::MAX, u64::MAX s, 2^62 s, 2^32 s, u64::MAX ms) through run_internet or run_internet_with_timeout and must still return the first requested status.",
     "C19": "The addresses the applications use sit anywhere in the last octet (0 and 255 included) and are covered by any mixture of ranges and single-address entries, tight or generous at either end, in any order; network ids and their order vary; in one run in three the machines are named like numbers or pieces of addresses (7, 2.1, 10.0.1, 1.256) and are still found by name. Two genuine defects found in the fifth round were repaired.",
 }
